@@ -32,6 +32,10 @@ func init() {
 		"strings.TrimRightFunc":            extStringsTrimRightFunc,
 		"strings.TrimRight":                extStringsTrimRight,
 		"strings.TrimSuffix":               extStringsTrimSuffix,
+		"strings.TrimPrefix":               extStringsTrimPrefix,
+		"strings.TrimLeft":                 extStringsTrimLeft,
+		"strings.TrimSpace":                extStringsTrimSpace,
+		"strings.Index":                    extStringsIndex,
 		"strings.Repeat":                   extStringsRepeat,
 		"strings.Contains":                 extStringsContains,
 		"(*strings.Builder).WriteString":   extBuilderWriteString,
@@ -247,6 +251,9 @@ func atomsExclude(fr *frame, s value, sep string) {
 			if c == nil {
 				panic(Inconclusive{"symbolic string outside exploration"})
 			}
+			if c.AtomExcludes(p.Lit, sep) {
+				continue
+			}
 			if c.Valid(fmt.Sprintf("(not (str.contains %s %s))", p.Lit, smtStrLit(sep))) != Unsat {
 				panic(Inconclusive{fmt.Sprintf("atom %s may contain separator %q", p.Lit, sep)})
 			}
@@ -325,7 +332,7 @@ func extStringsReplaceAll(fr *frame, args []value) value {
 		case PAtom:
 			// atoms that cannot contain the pattern are unchanged
 			c := fr.i.ctx
-			if c.Valid(fmt.Sprintf("(not (str.contains %s %s))", p.Lit, smtStrLit(old))) == Unsat {
+			if c.AtomExcludes(p.Lit, old) || c.Valid(fmt.Sprintf("(not (str.contains %s %s))", p.Lit, smtStrLit(old))) == Unsat {
 				out = append(out, p)
 			} else {
 				panic(Inconclusive{"ReplaceAll inside an atom that may contain the pattern"})
@@ -364,22 +371,108 @@ func extStringsTrimRightFunc(fr *frame, args []value) value {
 	return strings.TrimRightFunc(s, unicode.IsSpace)
 }
 
-func extStringsTrimRight(fr *frame, args []value) value {
-	s, ok1 := args[0].(string)
-	cut, ok2 := args[1].(string)
-	if !ok1 || !ok2 {
-		panic(Inconclusive{"strings.TrimRight on symbolic string"})
+// charSetRe renders a set of bytes as an SMT regex union.
+func charSetRe(set string) string {
+	if len(set) == 0 {
+		return "re.none"
 	}
-	return strings.TrimRight(s, cut)
+	var alts []string
+	for i := 0; i < len(set); i++ {
+		alts = append(alts, "(str.to_re "+smtStrLit(set[i:i+1])+")")
+	}
+	if len(alts) == 1 {
+		return alts[0]
+	}
+	return "(re.union " + strings.Join(alts, " ") + ")"
+}
+
+// trimSym models strings.TrimRight / TrimLeft on a symbolic string with a
+// concrete cutset: s = keep ++ cut (or cut ++ keep), cut in cutset*, and
+// keep does not end (start) with a cutset byte.
+func trimSym(fr *frame, s value, cutset string, right bool) value {
+	c := fr.i.ctx
+	if c == nil {
+		panic(Inconclusive{"symbolic string outside exploration"})
+	}
+	keep, cut := c.NewStr("trimkeep"), c.NewStr("trimcut")
+	st := StrTerm(s)
+	set := charSetRe(cutset)
+	if right {
+		c.addPC(fmt.Sprintf("(and (= %s (str.++ %s %s)) (str.in_re %s (re.* %s)) (not (str.in_re %s (re.++ re.all %s))))", st, keep, cut, cut, set, keep, set))
+	} else {
+		c.addPC(fmt.Sprintf("(and (= %s (str.++ %s %s)) (str.in_re %s (re.* %s)) (not (str.in_re %s (re.++ %s re.all))))", st, cut, keep, cut, set, keep, set))
+	}
+	return AtomRope(keep)
+}
+
+func extStringsTrimRight(fr *frame, args []value) value {
+	cut, ok2 := args[1].(string)
+	if !ok2 {
+		panic(Inconclusive{"strings.TrimRight with symbolic cutset"})
+	}
+	if s, ok := args[0].(string); ok {
+		return strings.TrimRight(s, cut)
+	}
+	return trimSym(fr, args[0], cut, true)
+}
+
+func extStringsTrimLeft(fr *frame, args []value) value {
+	cut, ok2 := args[1].(string)
+	if !ok2 {
+		panic(Inconclusive{"strings.TrimLeft with symbolic cutset"})
+	}
+	if s, ok := args[0].(string); ok {
+		return strings.TrimLeft(s, cut)
+	}
+	return trimSym(fr, args[0], cut, false)
+}
+
+func extStringsTrimSpace(fr *frame, args []value) value {
+	if s, ok := args[0].(string); ok {
+		return strings.TrimSpace(s)
+	}
+	ws := " \t\n\r\v\f"
+	return trimSym(fr, trimSym(fr, args[0], ws, true), ws, false)
 }
 
 func extStringsTrimSuffix(fr *frame, args []value) value {
-	s, ok1 := args[0].(string)
-	suf, ok2 := args[1].(string)
-	if !ok1 || !ok2 {
-		panic(Inconclusive{"strings.TrimSuffix on symbolic string"})
+	if s, ok1 := args[0].(string); ok1 {
+		if suf, ok2 := args[1].(string); ok2 {
+			return strings.TrimSuffix(s, suf)
+		}
 	}
-	return strings.TrimSuffix(s, suf)
+	has := extStringsHasSuffix(fr, args)
+	if fr.i.ctx.DecideValue(has) {
+		// s = r ++ suffix
+		r := fr.i.ctx.NewStr("trimsuf")
+		fr.i.ctx.addPC(fmt.Sprintf("(= %s (str.++ %s %s))", StrTerm(args[0]), r, StrTerm(args[1])))
+		return AtomRope(r)
+	}
+	return args[0]
+}
+
+func extStringsTrimPrefix(fr *frame, args []value) value {
+	if s, ok1 := args[0].(string); ok1 {
+		if pre, ok2 := args[1].(string); ok2 {
+			return strings.TrimPrefix(s, pre)
+		}
+	}
+	has := extStringsHasPrefix(fr, args)
+	if fr.i.ctx.DecideValue(has) {
+		r := fr.i.ctx.NewStr("trimpre")
+		fr.i.ctx.addPC(fmt.Sprintf("(= %s (str.++ %s %s))", StrTerm(args[0]), StrTerm(args[1]), r))
+		return AtomRope(r)
+	}
+	return args[0]
+}
+
+func extStringsIndex(fr *frame, args []value) value {
+	if s, ok1 := args[0].(string); ok1 {
+		if sub, ok2 := args[1].(string); ok2 {
+			return strings.Index(s, sub)
+		}
+	}
+	return SymInt{T: fmt.Sprintf("(str.indexof %s %s 0)", StrTerm(args[0]), StrTerm(args[1])), Kind: types.Int}
 }
 
 func extStringsRepeat(fr *frame, args []value) value {
